@@ -267,6 +267,9 @@ def intrinsics(reg: Registry):
     def ceil(ev, a, k):
         return sp.ceiling(as_sym(a[0]))
 
+    def floor(ev, a, k):
+        return sp.floor(as_sym(a[0]))
+
     def int_(ev, a, k):
         v = a[0]
         if isinstance(v, str):
@@ -311,5 +314,5 @@ def intrinsics(reg: Registry):
         "scipy.interpolate.lagrange": lagrange, "scipy.interpolate.KroghInterpolator": krogh,
         "interp.derivative_at": krogh_derivative, "numpy.polyder": polyder, "numpy.polyval": polyval,
         "numpy.poly1d": poly1d, "numpy.vander": vander, "numpy.linalg.lstsq": lstsq, "numpy.polyfit": polyfit,
-        "numpy.flip": flip, "numpy.sort": sort_, "numpy.argsort": argsort_, "numpy.ceil": ceil, "builtins.int": int_,
+        "numpy.flip": flip, "numpy.sort": sort_, "numpy.argsort": argsort_, "numpy.ceil": ceil, "numpy.floor": floor, "math.ceil": ceil, "math.floor": floor, "builtins.int": int_,
     }
